@@ -458,6 +458,9 @@ func init() {
 
 // triggerData attributes violations of the data properties to known-finding histories.
 func triggerData(w *World, v Violation) string {
+	if v.Class == "get_without_subscription" {
+		return triggerRefetchAfterRelease(w, v)
+	}
 	if v.Conn < 0 || v.Conn >= len(w.Clients) {
 		return ""
 	}
@@ -997,4 +1000,34 @@ func init() {
 		Monitors: func() []Monitor { return []Monitor{NewMonC10(), NewMonC02()} },
 		Trigger:  triggerData,
 	})
+}
+
+// triggerRefetchAfterRelease recognises the known finding "refetch-after-
+// release": a system.reset matching the resource was delivered, the cache entry
+// was released afterwards (its re-fetch still waiting in the reset throttle or
+// behind other work), and the delayed re-fetch is then sent without a subscription.
+func triggerRefetchAfterRelease(w *World, v Violation) string {
+	name := v.RID
+	resetT := -1
+	for _, e := range w.Log() {
+		if e.T >= v.T {
+			break
+		}
+		if e.Kind == "mq_ev" && e.Subject == "system.reset" {
+			var p struct {
+				Resources []string `json:"resources"`
+			}
+			if json.Unmarshal(e.Payload, &p) == nil {
+				for _, pat := range p.Resources {
+					if RefPatternMatch(pat, name) {
+						resetT = e.T
+					}
+				}
+			}
+		}
+		if e.Kind == "mq_unsub" && e.Subject == "event."+name && resetT >= 0 && e.T > resetT {
+			return "refetch-after-release"
+		}
+	}
+	return ""
 }
